@@ -4,6 +4,7 @@ import (
 	"bytes"
 	"encoding/json"
 	"fmt"
+	"gopkg.in/yaml.v3"
 	"os"
 	"path/filepath"
 	"strings"
@@ -34,6 +35,7 @@ func init() {
 		"text-lib": func(e *Env, raw json.RawMessage) { c09TextLib(e, decode[textCase](raw).Text) },
 		"yaml-lib": func(e *Env, raw json.RawMessage) { c09YAMLLib(e, decode[textCase](raw).Text) },
 		"out":      func(e *Env, raw json.RawMessage) { c09OutEval(e, decode[c09OutCase](raw)) },
+		"neutral":  func(e *Env, raw json.RawMessage) { c09NeutralEval(e, decode[c09NeutralCase](raw)) },
 	}})
 }
 
@@ -273,6 +275,123 @@ func c09OutputPaths(e *Env, text, degText string) {
 		e.R.NonTrivialN(1)
 	})
 	e.R.AddPart(ev.Part{Name: "output-destinations-cli", Enumerated: fmt.Sprintf("real binary: %d valid command lines (every data-producing subcommand, three with results of 100 kB and more) x destination {stdout on a full device, -o on a full device, -o in a missing directory, -o naming a directory, -o naming a read-only file}; the input-reading ones x FILE {missing, a directory, unreadable, two files}; the dictionary-loading ones x --chord/--attr {missing, a directory}: non-zero exit status with a diagnostic, never a silent success", len(cmds)), Executions: int64(len(cases)), Exhaustive: true})
+}
+
+// c09AttrNames lists the built-in attribute names as `info attr list` prints them.
+func c09AttrNames(e *Env) []string {
+	r := cli.In("", "info", "attr", "list")
+	var as []struct {
+		Name string `yaml:"name"`
+	}
+	if !r.OK() || yaml.Unmarshal(r.Stdout, &as) != nil {
+		return nil
+	}
+	var names []string
+	for _, a := range as {
+		names = append(names, a.Name)
+	}
+	return names
+}
+
+const doc1ForNames = "- chord:\n    degree: \"1\"\n    name: \"ua\"\n  values:\n    - \"1\"\n"
+
+// c09Neutral: things that must make no difference. A flag set to its empty/zero default means
+// "no override"; an empty stdin is an empty stdin whether it is a pipe or /dev/null; a file is
+// the same file whatever characters its name is made of.
+type c09NeutralCase struct {
+	Args  []string `json:"args"`
+	Extra []string `json:"neutral_arguments"`
+	Stdin string   `json:"stdin"`
+	How   string   `json:"how"` // flags | devnull | filename:<name>
+	Shell string   `json:"shell,omitempty"`
+}
+
+func c09NeutralEval(e *Env, c c09NeutralCase) {
+	e.R.Eval(1)
+	dir := filepath.Join(e.Scratch, fmt.Sprintf("c09-%d", atomic.AddInt64(&c09Dir, 1)))
+	if err := os.MkdirAll(dir, 0o755); err != nil {
+		panic(err)
+	}
+	defer os.RemoveAll(dir)
+	base := cli.Run(cli.Opt{Stdin: []byte(c.Stdin), Dir: dir}, c.Args...)
+	var r cli.Res
+	switch {
+	case c.How == "flags":
+		r = cli.Run(cli.Opt{Stdin: []byte(c.Stdin), Dir: dir}, append(append([]string{}, c.Args...), c.Extra...)...)
+	case c.How == "devnull":
+		base = cli.Run(cli.Opt{Stdin: nil, Dir: dir}, c.Args...)
+		r = cli.Run(cli.Opt{Dir: dir, Redirect: "</dev/null"}, c.Args...)
+	case strings.HasPrefix(c.How, "filename:"):
+		name := strings.TrimPrefix(c.How, "filename:")
+		p := filepath.Join(dir, name)
+		if err := os.WriteFile(p, []byte(c.Stdin), 0o644); err != nil {
+			panic(err)
+		}
+		arg := "./" + name // relative to the working directory, so that a leading - is no flag
+		r = cli.Run(cli.Opt{Stdin: []byte("this is not the input"), Dir: dir}, append(append([]string{}, c.Args...), arg)...)
+	case strings.HasPrefix(c.How, "dictname:"):
+		name := strings.TrimPrefix(c.How, "dictname:")
+		plain := writeTemp(dir, "plain.yml", c09Chords)
+		if err := os.WriteFile(filepath.Join(dir, name), []byte(c09Chords), 0o644); err != nil {
+			panic(err)
+		}
+		base = cli.Run(cli.Opt{Stdin: []byte(c.Stdin), Dir: dir}, append(append([]string{}, c.Args...), "--chord", plain, "--attr", writeTemp(dir, "a.yml", c09Attrs))...)
+		r = cli.Run(cli.Opt{Stdin: []byte(c.Stdin), Dir: dir}, append(append([]string{}, c.Args...), "--chord", "./"+name, "--attr", filepath.Join(dir, "a.yml"))...)
+	case strings.HasPrefix(c.How, "outname:"):
+		name := strings.TrimPrefix(c.How, "outname:")
+		r = cli.Run(cli.Opt{Stdin: []byte(c.Stdin), Dir: dir}, append(append([]string{}, c.Args...), "-o", "./"+name)...)
+		if b, err := os.ReadFile(filepath.Join(dir, name)); err == nil && r.OK() {
+			r.Stdout = b
+		} else if r.OK() {
+			r.Stdout = []byte("(no file of that name was written)")
+		}
+	}
+	c.Shell = fmt.Sprintf("crd %s  vs  crd %s %s [%s]", strings.Join(c.Args, " "), strings.Join(c.Args, " "), strings.Join(c.Extra, " "), c.How)
+	if r.TimedOut || r.Crashed() || r.Exit != base.Exit || !bytes.Equal(r.Stdout, base.Stdout) {
+		e.R.Fail(ev.Fail{Class: "C09/not-neutral/" + strings.SplitN(c.How, ":", 2)[0] + "/" + cmdKey(c.Args), Msg: fmt.Sprintf("crd %s: %s %v changes the result: exit %d vs %d, %s; %s", strings.Join(c.Args, " "), c.How, c.Extra, base.Exit, r.Exit, describeDiff(base.Stdout, r.Stdout), firstLine(r.Stderr)), Kind: "neutral", Case: c})
+		return
+	}
+	e.R.Outcome(c.How)
+}
+
+func c09Neutral(e *Env, text string) {
+	var cases []c09NeutralCase
+	writeCmds := [][]string{{"write"}, {"write", "event"}, {"write", "parse"}, {"write", "conv", "-c", "cmt"}}
+	neutral := [][]string{{"--bpm", "0"}, {"--key", ""}, {"-k", ""}, {"--velocity", ""}, {"--meter", ""}, {"-o", ""}, {"--output", ""}, {"--track", "1"}, {"--program", "0"}, {"--instrument", "Piano"},
+		{"--bpm", "0", "--key", "", "--velocity", "", "--meter", ""}, {"--debug=false"}}
+	for _, cmd := range writeCmds {
+		for _, n := range neutral {
+			if len(n) == 0 {
+				continue
+			}
+			cases = append(cases, c09NeutralCase{Args: cmd, Extra: n, Stdin: c09ValidDoc, How: "flags"})
+		}
+	}
+	for _, n := range [][]string{{"--key", ""}, {"-k", ""}, {"-o", ""}, {"--debug=false"}} {
+		cases = append(cases, c09NeutralCase{Args: []string{"text", "conv", "syllable"}, Extra: n, Stdin: text, How: "flags"})
+	}
+	for _, cmd := range append(append([][]string{}, writeCmds...), []string{"text", "parse"}, []string{"text", "conv", "syllable"}, []string{"text", "conv", "degree"}) {
+		cases = append(cases, c09NeutralCase{Args: cmd, How: "devnull"})
+	}
+	names := []string{"a b.yml", "jazz[v2].yml", "star*.yml", "what?.yml", "-dash.yml", "--double.yml", "é♭.yml", "tab\tname.yml", "semi;colon.yml", "$HOME.yml", "~tilde.yml", "{a,b}.yml", "quote'.yml", strings.Repeat("long", 60) + ".yml", ".hidden", "back\\slash.yml", "percent%s.yml", "#hash.yml"}
+	for _, nm := range names {
+		for _, cmd := range writeCmds[:2] {
+			cases = append(cases, c09NeutralCase{Args: cmd, Stdin: c09ValidDoc, How: "filename:" + nm})
+			cases = append(cases, c09NeutralCase{Args: cmd, Stdin: c09ValidDoc, How: "outname:" + nm})
+		}
+		cases = append(cases, c09NeutralCase{Args: []string{"text", "conv", "syllable"}, Stdin: text, How: "filename:" + nm})
+		if strings.Contains(nm, ",") {
+			continue // --chord/--attr are comma-separated lists (pflag StringSlice): a comma cannot be part of a name there
+		}
+		cases = append(cases, c09NeutralCase{Args: []string{"info", "chord", "list"}, How: "dictname:" + nm})
+		cases = append(cases, c09NeutralCase{Args: []string{"write", "event"}, Stdin: doc1ForNames, How: "dictname:" + nm})
+	}
+	mc.ParFor(len(cases), func(i int) {
+		c09NeutralEval(e, cases[i])
+		e.R.Trace(1)
+		e.R.NonTrivialN(1)
+	})
+	e.R.AddPart(ev.Part{Name: "neutral-arguments-cli", Enumerated: fmt.Sprintf("real binary, %d comparisons with the plain run: every flag of write / write event / write parse / write conv / text conv set to its empty or zero default (alone and together); an empty stdin given as /dev/null instead of an empty pipe on every reading command; FILE, -o, --chord named with each of %d awkward names (space, [ ], *, ?, leading - and --, non-ASCII, tab, ;, $, ~, {,}, quote, 244 characters, dot file, backslash, %%, #)", len(cases), len(names)), Executions: int64(len(cases)), Exhaustive: true})
 }
 
 // goyaccDebugOnly reports whether every line is a goyacc debug line ("state-N saw TOKEN", "error recovery ...").
@@ -669,6 +788,16 @@ func runC09(e *Env) {
 		"numbers":          "- name: 1\n  meta: {display: 2}\n  attributes: [3]\n",
 		"empty-file":       "",
 	}
+	// a chord of very many tones is unusual, not wrong: 40 and 67 tones (every built-in attribute)
+	if names := c09AttrNames(e); len(names) >= 40 {
+		for _, n := range []int{31, 32, 33, 40, len(names)} {
+			d := fmt.Sprintf("- name: Wide\n  meta:\n    display: wd\n  attributes:\n    - %s\n", strings.Join(names[:n], "\n    - "))
+			doc := "- chord:\n    degree: \"1\"\n    name: \"wd\"\n  values:\n    - \"1\"\n- chord:\n    degree: \"4\"\n    name: \"Wide\"\n    base: \"5\"\n  values:\n    - \"1\"\n"
+			for _, cmd := range [][]string{{"write"}, {"write", "event"}, {"write", "--track", "3"}, {"write", "event", "--track", "40"}, {"info", "chord", "describe", "-t", "C_wd"}} {
+				cases = append(cases, c09Case{Label: "valid", Args: append(append([]string{}, cmd...), "--chord", "{DIR}/c.yml"), Stdin: doc, Files: map[string]string{"c.yml": d}, Expect: "ok"})
+			}
+		}
+	}
 	for name, d := range oddDicts {
 		for _, cmd := range [][]string{{"write"}, {"info", "chord", "describe", "-t", "C_d299"}, {"info", "chord", "list"}} {
 			cases = append(cases, c09Case{Label: "odd-dictionary/" + name, Args: append(append([]string{}, cmd...), "--chord", "{DIR}/c.yml"), Stdin: inst("", okValues), Files: map[string]string{"c.yml": d}, Expect: "any"})
@@ -830,6 +959,7 @@ func runC09(e *Env) {
 	cases = append(cases, c09Case{Label: "valid", Args: []string{"write", "--chord", "{DIR}/c.yml", "--attr", "{DIR}/a.yml"}, Stdin: doc1, Files: map[string]string{"c.yml": c09Chords, "a.yml": c09Attrs}, Expect: "ok"})
 	nFlags := len(cases) - nShort - nMut - nTable
 	c09OutputPaths(e, textSeeds[0].text, textSeeds[1].text)
+	c09Neutral(e, textSeeds[0].text)
 
 	mc.ParFor(len(cases), func(i int) {
 		c := cases[i]
